@@ -17,6 +17,15 @@ def _get(sim, enc):
 _MISSING = object()
 
 
+def _peer_arithmetic(sim, out):
+    """The call ended with an ArithmeticError after it had called into a caller-supplied conversion
+    function (e.g. a reciprocal unit asked for the amount 0): the exception is the peer's, no
+    statement obliges barril to turn it into something else."""
+    from .ops import PEER
+
+    return out[0] == "exc" and isinstance(out[1], ArithmeticError) and PEER["calls"] > getattr(sim, "peer_calls_before", PEER["calls"])
+
+
 def _exc_names(e):
     return [c.__name__ for c in type(e).__mro__]
 
@@ -217,7 +226,7 @@ def o_eq_target(sim, op, spec, out):
 
 
 def o_raises(sim, op, spec, out):
-    if out[0] == "intr":
+    if out[0] == "intr" or _peer_arithmetic(sim, out):
         return
     ok = out[0] == "exc" and any(n in _exc_names(out[1]) for n in spec["cls"])
     sig = {"case": spec.get("case", "must_raise"), "got": out[0] if out[0] != "exc" else type(out[1]).__name__}
@@ -232,7 +241,7 @@ def o_raises(sim, op, spec, out):
 
 def o_raises_any(sim, op, spec, out):
     """Unknown unit where a unit is required: must not return a value."""
-    if out[0] == "intr":
+    if out[0] == "intr" or _peer_arithmetic(sim, out):
         return
     if spec.get("unit") is not None and M.unit_type(spec["unit"]) is not None:
         sim.count("precondition_lapsed")  # the name is registered (by now): nothing to refuse
@@ -257,7 +266,7 @@ def _api(op):
 
 def o_reject(sim, op, spec, out):
     """C05.loud: a dimensionally incompatible request raises a units/type error, never returns."""
-    if out[0] == "intr":
+    if out[0] == "intr" or _peer_arithmetic(sim, out):
         return
     why = spec["why"]
     if why == "pair":
@@ -298,7 +307,7 @@ def o_reject_db2(sim, op, spec, out):
     from .ops import OTHER_DB
 
     db2 = OTHER_DB["db"]
-    if out[0] == "intr" or db2 is None:
+    if out[0] == "intr" or db2 is None or _peer_arithmetic(sim, out):
         return
     t, frm, to = spec["t"], spec["frm"], spec["to"]
     if frm == to or (db2.GetQuantityType(frm) == t and db2.GetQuantityType(to) == t):
@@ -439,10 +448,14 @@ def o_changing_index(sim, op, spec, out):
         return
     rel = _rel(vals + got)
     for j in range(n):
-        if j == pos:
-            want = db.Convert(qt, xu, want_unit, float(xv))
-        else:
-            want = db.Convert(qt, fa.GetUnit(), want_unit, float(vals[j]))
+        try:
+            if j == pos:
+                want = db.Convert(qt, xu, want_unit, float(xv))
+            else:
+                want = db.Convert(qt, fa.GetUnit(), want_unit, float(vals[j]))
+        except ArithmeticError:
+            sim.count("oracle_inapplicable:conversion_raises")
+            continue
         if not _representable(want, rel) or not all(_representable(v, rel) for v in vals) or not _representable_via_base(db, qt, fa.GetUnit(), vals[j], rel):
             sim.count("oracle_inapplicable:single_precision_range")
             continue
@@ -519,7 +532,11 @@ def o_index_as_scalar(sim, op, spec, out):
     if not _flat(vals):
         sim.count("oracle_inapplicable:non_flat_container")
         return
-    want = _db().Convert(fa.GetQuantityType(), fa.GetUnit(), q.GetUnit(), float(vals[idx]))
+    try:
+        want = _db().Convert(fa.GetQuantityType(), fa.GetUnit(), q.GetUnit(), float(vals[idx]))
+    except ArithmeticError:
+        sim.count("oracle_inapplicable:conversion_raises")
+        return
     if not _representable(want, _rel(vals)) or not _representable(vals[idx], _rel(vals)) or not _representable_via_base(_db(), fa.GetQuantityType(), fa.GetUnit(), vals[idx], _rel(vals)):
         sim.count("oracle_inapplicable:single_precision_range")
         return
